@@ -183,11 +183,16 @@ func sortedFieldSet(s string) string {
 }
 
 // autogen <tid> <mode>
-func opAutogen(p []string) string {
+func opAutogen(p []string, otherKeyFirst bool) string {
 	id, _ := strconv.Atoi(p[0])
 	t := typeByID[id]
 	var e *atlas.AtlasEntry
 	_, panicked := safely(func() error {
+		if otherKeyFirst {
+			// the same type mapped through ANOTHER tag key first (as a program that also serves encoding/json tags would):
+			// the refmt mapping asked for afterwards must not depend on that
+			atlas.AutogenerateStructMapEntryUsingTags(t, "json", sortMode(p[1]))
+		}
 		e = atlas.AutogenerateStructMapEntryUsingTags(t, "refmt", sortMode(p[1]))
 		return nil
 	})
